@@ -112,6 +112,16 @@ func H_Paths() {
 	}) {
 		return
 	}
+	// a path stays valid while the tree hands out other paths (every path owns its nodes)
+	if n >= 3 {
+		j := (idx + 2) % n
+		var pj *util.MTPath
+		if vp.NoPanic("C19.nopanic", func() { pj = mt.GetPathByIndex(j) }) {
+			return
+		}
+		vp.Assert("C19.earlier-path-still-verifies", util.VerifyMerklePath(own, p, root))
+		vp.Assert("C19.path-by-index-verifies", util.VerifyMerklePath(leaves[j].GetHash(), pj, root))
+	}
 	mt3 := &util.MerkleTree{}
 	vp.Assert("C19.settree-wrong-size-rejected", mt3.SetTree(n+1, mt.GetTree()) != nil)
 	if n > 1 {
